@@ -39,7 +39,7 @@ def drv():
         prepare(Ctx("C08", "quick", 1))
     k = ("d", os.getpid())
     if k not in _d:
-        _d[k] = cbuild.Driver(_d["exe"])
+        _d[k] = cbuild.Driver(_d["exe"], max_line=(1 << 20) - 16)
     return _d[k]
 
 
